@@ -16,6 +16,9 @@ type MethodSpec struct {
 	Update bool
 	Fields map[string]*fieldSet // parsed view of map/ignore lines (for the Coq term)
 	Auto   []string
+	Ctx      []CtxParam // context parameters
+	CtxFirst bool       // context parameters precede the source parameter
+	Err      bool       // second result: error
 }
 
 type fieldSet struct {
@@ -29,6 +32,9 @@ type ConvSpec struct {
 	Methods []*MethodSpec
 	SamePkg bool // output in package p itself (unexported members accessible)
 	Edits   []string
+	Extend    []ExtSpec
+	FuncNames map[string]int // FUNC texts of map ... | FUNC and default FUNC lines
+	Custom    bool           // uses custom functions / contexts / errors (structural oracles do not apply)
 }
 
 type pgen struct {
